@@ -220,6 +220,53 @@ func joinedGoroutines(c *Ctx, rule string) {
 				doneOK = p.EscapesWithout(bf, isDone, mustOpts{}) == nil
 			}
 			c.Check(esc == nil && doneOK, rule, funcName(fn)+":go", g.Pos(), "goroutine joined by WaitGroup.Wait on every path; body signals Done on every path", "a goroutine spawned on the insertion path is not joined on every path before the function returns (or its body can finish without Done)")
+			// what the goroutine writes is read by the spawner only after the join
+			if body != nil {
+				bf := body.Fn.(*ssa.Function)
+				var waits []ssa.Instruction
+				eachInstr(fn, func(in ssa.Instruction) {
+					if isWait(in) {
+						waits = append(waits, in)
+					}
+				})
+				early := 0
+				for i, b := range body.Bindings {
+					al, ok := b.(*ssa.Alloc)
+					if !ok || i >= len(bf.FreeVars) {
+						continue
+					}
+					written := false
+					if refs := bf.FreeVars[i].Referrers(); refs != nil {
+						for _, r := range *refs {
+							if st, ok := r.(*ssa.Store); ok && st.Addr == bf.FreeVars[i] {
+								written = true
+							}
+						}
+					}
+					if !written {
+						continue
+					}
+					for _, r := range *al.Referrers() {
+						ld, ok := r.(*ssa.UnOp)
+						if !ok || ld.Parent() != fn || !instrBefore(g, ld) {
+							continue
+						}
+						joined := false
+						for _, w := range waits {
+							if instrBefore(w, ld) {
+								joined = true
+							}
+						}
+						if !joined {
+							early++
+							c.Fail(rule, funcName(fn)+":read-before-join", ld.Pos(), "a variable written by the helper goroutine ("+al.Comment+") is read before WaitGroup.Wait: the value may not be there yet, and what is persisted then differs between replicas")
+						}
+					}
+				}
+				if early == 0 {
+					c.Ok(rule, funcName(fn)+":read-before-join", g.Pos(), "results of the helper goroutine are read only after the join")
+				}
+			}
 		}
 	}
 }
